@@ -980,10 +980,14 @@ func runLockCaseX(ctx *Ctx, lk, pv []int, steps, budget, maxFault int, shutdownA
 	for _, d := range lc.provDown {
 		anyDown = anyDown || d
 	}
-	if quiet && !lc.failed && lc.faults == 0 && !anyDown {
+	if quiet && !lc.failed && lc.faults == 0 {
+		// (also after a Shutdown: a holder that unlocks then still removes its record; only the local token of a
+		// Locker may stay taken by design once its provider is down)
 		if v := lc.store.recVer(); v != "-" {
-			ctx.R.Quiet("mon C04-no-residue", "every call returned and nobody holds, but the lock record (version "+v+") is still there")
+			ctx.R.Quiet("mon C04-no-residue", "every call returned and nobody holds, but the lock record (version "+v+") is still there"+map[bool]string{true: " (a provider was shut down before the last Unlock)", false: ""}[anyDown])
 		}
+	}
+	if quiet && !lc.failed && lc.faults == 0 && !anyDown {
 		for _, w := range lc.workers {
 			tok, cn := dist.VerifLockState(w.locker)
 			if !tok || cn != 0 {
